@@ -8,7 +8,7 @@ TB = ("Trusted: Lean 4.33 kernel; axioms propext/Quot.sound/Classical.choice onl
 ALL = ["C%02d" % i for i in range(1, 21)]
 PENDING_REASON = "check not built yet (model/theorems/correspondence pending); see DESIGN.md section 6 build order"
 NA = {}      # property -> reason, for properties deliberately not claimed
-HOLD = {"C19": "check built and registered earlier; temporarily held while its KLL program model is re-aligned with fix: commit e073e34 (move assignment now also releases the source's cached sorted view): the per-op correspondence of the `kll` part diverges until then"}
+HOLD = {}
 
 
 def collect():
